@@ -39,8 +39,8 @@ RULE = ('random G-models (hierarchy, promotion, connect/promotes src_indices cha
         'final_setup/run_model, each replayed in 3 phase placements; distinct = set of (op, name kind, index '
         'class, unit class, value form) combinations of the history; non-trivial = history contains a set_val '
         'with indices or a unit conversion')
-MIN_JUDGED = {'quick': 150, 'thorough': 3000}
-REQUIRED_COUNTERS = ['obs:roundtrip-get-after-set', 'obs:untouched-entries-bitwise', 'obs:alias-read',
+MIN_JUDGED = {'quick': 500, 'thorough': 10000}
+REQUIRED_COUNTERS = ['obs:roundtrip-get-after-set', 'obs:roundtrip-input-vector', 'obs:untouched-entries-bitwise', 'obs:alias-read',
                      'obs:final-store-read', 'obs:after-run-ivc-persist', 'obs:after-run-state-vs-R',
                      'obs:cross-placement-compare',
                      'cell:phase=pre-final-setup', 'cell:phase=post-final-setup', 'cell:phase=post-run',
@@ -72,7 +72,7 @@ RUN_TOL = 1e-8   # component outputs after run_model vs R
 
 def shards(tier, seed):
     n = 16 if tier == 'quick' else 64
-    per = 14 if tier == 'quick' else 80
+    per = 45 if tier == 'quick' else 250
     return [{'seed': seed * 100000 + i * 1000, 'n': per, 'tier': tier} for i in range(n)]
 
 
@@ -202,6 +202,7 @@ def gen_history(rng, names, fm):
     from omv.gen import models as G
     from omv.ref.flatmodel import UNITS
     nops = rng.randint(5, 20)
+    risky = rng.random() < 0.2
     ops = []
     settable = [k for k, n in enumerate(names) if n['settable']]
     # positions of optional lifecycle events inside the history
@@ -266,12 +267,16 @@ def gen_history(rng, names, fm):
             if not np.all(np.isin(alias, esel)):
                 continue
             form = rng.choice(['scalar', 'array', 'array', 'list'])
-            if idx is not None and form == 'scalar' and rng.random() < 0.75:
-                form = 'array'       # (scalar broadcast over an indexed sub-array is kept, but rarer)
             if sel.shape == ():
                 form = rng.choice(['scalar', 'scalar', 'array0d'])
-                if n['kind'].endswith('abs-in') and rng.random() < 0.6:
-                    continue         # thin out one over-represented combination
+            # forms that hit recorded findings are generated only in a fraction of the histories, so that the
+            # other histories stay clean and are compared across placements
+            suspect = ((form == 'scalar' and sel.size > 1 and (idx is not None or n['indexed']))
+                       or (sel.shape == () and n['kind'].endswith('abs-in'))
+                       or (idx is not None and n['mech'] == 'scalar-chain')
+                       or n['mech'] in ('dup-chain2', 'flat-link-after-noncontiguous-view'))
+            if suspect and not risky:
+                continue
             if form in ('scalar', 'array0d'):
                 op['val'] = round(rng.uniform(-3, 3), 3)
             else:
@@ -404,8 +409,8 @@ class Replay:
             if n is None:
                 key = '%s-raises:%s@%s:%s' % (opname, type(e).__name__, exc_where(e), self.phase)
             else:
-                key = '%s-raises:%s@%s:%s:%s:%s:%s' % (opname, type(e).__name__, exc_where(e), n['mech'], sig,
-                                                     n['kind'], self.phase)
+                key = '%s-raises:%s@%s:%s:%s:%s:%s' % (opname, type(e).__name__, exc_where(e),
+                                                     _cause(str(e), sig, n), sig, n['kind'], self.phase)
             self._flag(key, '%s(%s%s) raised %s: %s' % (opname, n['name'] if n else '', self._argtxt, type(e).__name__,
                                                        str(e)[:200]))
             return False, e
@@ -588,6 +593,19 @@ class Replay:
                                (n['name'], _short(want), op['units'], ref_idx, _short(got), why))
             else:
                 self.obs['ops'].append(('get-raised', None, 1.0, False))
+            # (a') the same through the input vector itself (absolute input names, vectors exist)
+            if n['kind'].endswith('abs-in') and self.phase != 'pre-final-setup':
+                ok, got = self._call('get_val-from_src=False', n, cls,
+                                     lambda: np.array(prob.get_val(n['name'], from_src=False, **kw)))
+                if ok:
+                    exp, mag = self.shadow.get(n, op['units'], ref_idx)
+                    want = np.broadcast_to(np.asarray(op['val'], dtype=float), exp.shape)
+                    good, why = _close(got, want, RT * mag)
+                    acc.count('obs:roundtrip-input-vector')
+                    if not good:
+                        self._flag('roundtrip-input-vector-mismatch:%s:%s:%s:%s' % (n['mech'], sig, n['kind'], ucls),
+                                   'set_val(%s, %s, units=%s, indices=%s) then get_val(from_src=False) returned %s '
+                                   '(%s)' % (n['name'], _short(want), op['units'], ref_idx, _short(got), why))
             # (b) untouched entries bitwise, touched entries per the shadow
             after = self._raw(n['slot'])
             if after is None:
@@ -678,6 +696,18 @@ class Replay:
                 self._flag('%s-store-mismatch:%s:%s:%s' % (tag, n['mech'], n['kind'], self._ucls(n, None)),
                            'get_val(%s) = %s, shadow store says %s (%s)' % (n['name'], _short(got), _short(exp),
                                                                             why))
+
+
+def _cause(msg, sig, n):
+    """Mechanism class of an exception raised by set_val/get_val on a legal call (part of the key)."""
+    scalar_val = sig.startswith('scalar-to-')
+    if 'does not match shape' in msg and scalar_val:
+        return 'scalar-value-promoted-to-1d'
+    if 'setting an array element with a sequence' in msg and sig == 'scalar-to-scalar-position':
+        return 'scalar-value-promoted-to-1d'
+    if 'invalid index to scalar variable' in msg and n['mech'] == 'scalar-chain':
+        return 'user-indices-after-scalar-src-indices'
+    return 'unclassified-' + n['mech']
 
 
 def _short(a):
